@@ -116,19 +116,9 @@ theorem Jac_batchNormalization_eq (v : List (Jac F)) :
 
 /-! ## `random` -/
 
-/-- `CurveProjective::random` as a function of the RNG (`baseRandom` = `$basefield::random`, `nextU32` =
-    `RngCore::next_u32`; both return the new RNG state first), in terms of the MODEL's `get_point_from_x`
-    and of the cofactor scaling `cof`; `fuel` bounds the number of attempts, `none` = no point found -/
-def randomSpec {Rng : Type} [SqrtOps F] (baseRandom : Rng → Rng × F) (nextU32 : Rng → Rng × Nat) (b : F)
-    (cof : Aff F → Jac F) : Nat → Rng → Option (Rng × Jac F)
-  | 0, _ => none
-  | fuel + 1, rng =>
-    let r1 := baseRandom rng
-    let r2 := nextU32 r1.1
-    match PP.Aff.getPointFromX b r1.2 (r2.2 % 2 != 0) with
-    | none => randomSpec baseRandom nextU32 b cof fuel r2.1
-    | some p =>
-      if (cof p).isZero then randomSpec baseRandom nextU32 b cof fuel r2.1 else some (r2.1, cof p)
+/- the specification of `CurveProjective::random` is the model's `PP.Jac.randomSpec` (PP/Model/Curve.lean; it is also
+   run by the model driver against the real code with a replaying RNG) -/
+export PP.Jac (randomSpec)
 
 theorem Jac_random_eq {Rng : Type} [SqrtOps F] (fuel : Nat) (baseRandom : Rng → Rng × F) (nextU32 : Rng → Rng × Nat)
     (b : F) (cof : Aff F → Jac F) (rng : Rng) :
